@@ -31,3 +31,61 @@ def _format(obj, spec=""):
 
 _PATCH_REGISTRATIONS.pop(format, None)
 register_patch(format, _format)
+
+
+# ---------------------------------------------------------------------------
+# Regex model repair.  CrossHair 0.0.110 treats `$` (non-MULTILINE) as "end of string" only; in
+# CPython it also matches just before a trailing "\n".  The pattern is rewritten, before CrossHair
+# compiles it, into the exactly equivalent zero-width `(?=\n?\Z)`, which the engine models correctly.
+# Found when a seeded change ("2025-06-18\n" accepted as a supported version) was reported as
+# `Confirmed` by the unpatched model.
+import re as _re
+
+from crosshair.libimpl import relib as _relib
+
+_orig_compile = _relib._compile
+
+
+def _rewrite_dollar(p):
+    out, i, n, in_class = [], 0, len(p), False
+    while i < n:
+        c = p[i]
+        if c == "\\" and i + 1 < n:
+            out.append(p[i:i + 2])
+            i += 2
+            continue
+        if in_class:
+            if c == "]":
+                in_class = False
+            out.append(c)
+        elif c == "[":
+            in_class = True
+            out.append(c)
+            if i + 1 < n and p[i + 1] == "^":
+                out.append("^")
+                i += 1
+            if i + 1 < n and p[i + 1] == "]":
+                out.append("]")
+                i += 1
+        elif c == "$":
+            out.append("(?=\\n?\\Z)")
+        else:
+            out.append(c)
+        i += 1
+    return "".join(out)
+
+
+def _compile_fixed(*a):
+    with NoTracing():
+        try:
+            pattern = a[0]
+            flags = a[1] if len(a) > 1 else 0
+            if type(pattern) is str and "$" in pattern and not (int(flags) & _re.MULTILINE) and "(?m" not in pattern and "(?x" not in pattern and not (int(flags) & _re.VERBOSE):
+                a = (_rewrite_dollar(pattern),) + tuple(a[1:])
+        except Exception:
+            pass
+    return _orig_compile(*a)
+
+
+_PATCH_REGISTRATIONS.pop(_re._compile, None)
+register_patch(_re._compile, _compile_fixed)
